@@ -44,7 +44,7 @@ REAL_STUB = {
     "real": ["jinja2 lexer/parser/idtracking/compiler in fresh CPython interpreters"],
     "stub": ["nothing stubbed; the seams are PYTHONHASHSEED and the per-process compilation history, both drawn from the seed"],
 }
-BUDGET = {"quick": 28, "thorough": 600}
+BUDGET = {"quick": 40, "thorough": 600}
 BATCH = {"quick": 1, "thorough": 1}
 DET_UNITS = {"quick": 6, "thorough": 12}
 DET_FRESH = {"quick": 3, "thorough": 6}
@@ -113,10 +113,18 @@ def run_threads(tape: Tape) -> Outcome:
             P.templates[n_] += ("{% trans %}" + " ".join("{{ %s }}" % v for v in fv) + "{% endtrans %}"
                                 + "{% trans count=n1 %}" + " {{ count }} ".join("{{ %s }}" % v for v in fv[:2]) + "{% pluralize %}"
                                 + " ".join("{{ %s }}" % v for v in reversed(fv)) + "{% endtrans %}")
+    micro = tape.draw(3, "m") == 2
+    if micro:
+        # two tiny templates whose single expression is folded at compile time through the SAME filter with other
+        # arguments; every step of the serial run inside filter code is tried as a pre-emption (below)
+        from sim.workload import CONST_PAIRS
+
+        a_, b_ = CONST_PAIRS[tape.draw(len(CONST_PAIRS))]
+        P.templates = {"main": "{{ " + a_ + " }}", "m1": "{{ " + b_ + " }}"}
     names = sorted(P.templates)
-    nt = 2 + tape.draw(2)
+    nt = 2 if micro else 2 + tape.draw(2)
     shared_env = bool(tape.draw(2))
-    progs = [[tape.pick(names) for _ in range(1 + tape.draw(2))] for _ in range(nt)]
+    progs = [["main"], ["m1"]] if micro else [[tape.pick(names) for _ in range(1 + tape.draw(2))] for _ in range(nt)]
 
     def mk_env():
         cls = SandboxedEnvironment if cfg["sandboxed"] else jinja2.Environment
@@ -143,7 +151,7 @@ def run_threads(tape: Tape) -> Outcome:
         envs = [env0 if shared_env else mk_env() for _ in range(nt)]
         for e_ in envs:
             e_.lexer  # noqa: B018
-        sched = T.Sched(sched_tape, step_cap=12_000_000, line_level=True, wall_cap=90.0)
+        sched = T.Sched(sched_tape, step_cap=12_000_000, line_level=True, wall_cap=90.0, record_regions=serial)
         results = [[None] * len(p_) for p_ in progs]
 
         def body(tid):
@@ -167,11 +175,24 @@ def run_threads(tape: Tape) -> Outcome:
     for _ in range(1 + tape.draw(3, "s")):
         tid = tape.draw(nt, "s")
         plan.append((tid, 1 + tape.draw(horizons[tid], "s"), tape.draw(nt - 1, "s")))
-    sched, results = execute(tape, plan, False)
+    plans = [plan]
+    if micro:
+        for tid_ in (0, 1):
+            regs_ = s0.threads[tid_].regions or []
+            idx_ = [i_ for i_, r_ in enumerate(regs_) if r_ == "runtime"]
+            if len(idx_) > 64:
+                idx_ = idx_[:: max(len(idx_) // 64, 1)][:64]
+            plans += [[(tid_, 1 + i_, 0)] for i_ in idx_]
+        out.count("thread_compile_micro_runs")
+    for pi_, plan in enumerate(plans):
+        sched, results = execute(tape, plan, False)
+        bad_ = any(results[t_][j_] != alone[n_] for t_, p_ in enumerate(progs) for j_, n_ in enumerate(p_))
+        if bad_ or sched.abort or pi_ == len(plans) - 1:
+            break
+    out.evals = sum(len(p_) for p_ in progs) * (pi_ + 1)
     out.count("thread_compile_runs")
     out.count("thread_compile_preemptions_fired", sched.preempts_fired)
     out.count("thread_compile_steps", sched.gstep)
-    out.evals = sum(len(p_) for p_ in progs)
     out.decoded = {"kind": "concurrent-compile", "cfg": cfg, "shared_environment": shared_env, "templates": P.templates,
                    "threads": progs, "plan(tid,local_step,target)": plan, "switch_trace": sched.trace[:40]}
     out.trace = digest([sched.trace, [[digest(x) for x in r_] for r_ in results]])
@@ -279,6 +300,12 @@ def run(tape: Tape) -> Outcome:
     out.cases = [digest([c["source"], c["cfg"]]) for c in corpus if c["id"] in nontrivial_ids]
     out.count("nontrivial_templates", len(nontrivial_ids))
     return out
+
+
+
+from sim.core import guarded as _guarded  # noqa: E402
+
+run = _guarded(run, 240.0)
 
 
 def unit(index: int, seed: int, tier: str):
